@@ -146,6 +146,39 @@ func envFileReader(c *an.Ctx, rule string) {
 				}
 			}
 			if errCall == nil {
+				// the scanner kept in a field of a reader object (the loop and the final check are methods of it):
+				// Err is consulted on the same field somewhere in the package and its error is handed on
+				field := ""
+				if sc.Referrers() != nil {
+					for _, r := range *sc.Referrers() {
+						if st, ok := r.(*ssa.Store); ok {
+							if fa, ok := st.Addr.(*ssa.FieldAddr); ok {
+								field = an.TypeField(fa)
+							}
+						}
+					}
+				}
+				handed := false
+				if field != "" {
+					for _, g := range p.Funcs {
+						if an.Outer(g).Pkg != fn.Pkg || g.Blocks == nil {
+							continue
+						}
+						for _, e := range an.CallsIn(g, "(*bufio.Scanner).Err") {
+							ec, ok := e.(*ssa.Call)
+							if !ok || an.FieldProv(ec.Call.Args[0]) != field {
+								continue
+							}
+							if fate := p.ErrFate(ec, noReturn); fate.Kind == "propagated" || fate.Kind == "converted" {
+								handed = true
+							}
+						}
+					}
+				}
+				if handed {
+					c.OK(rule, an.Short(fn)+":Scanner.Err", sc.Pos(), "the scanner is kept in "+field+"; its Err is consulted there and the error handed on")
+					continue
+				}
 				c.Bad(rule, an.Short(fn)+":Scanner.Err", sc.Pos(), "the scanner's Err is never consulted: a read error (or an over-long line) ends the loop like the end of the file, and the variables defined after it are silently missing from the env_file level")
 				continue
 			}
